@@ -191,4 +191,6 @@ def run(ck):
         ck.ob('KEY-residue', mod.loc(fp), True, 'fix_ptm has no ad-hoc grouping by resid alone', key='KEY-residue|fix_ptm|resid-only')
     shared.truthy_zero(ck, [CM])
     shared.runs_every_molecule(ck, 'vermouth/processors/canonicalize_modifications.py', 'CanonicalizeModifications', 'MPT-every-molecule')
+    from .c04 import unrecognised_rules
+    unrecognised_rules(ck, 'PROV-unrecognised')
     ck.assume('the cover search itself (exactly one, induced, preference for larger modifications) is decided only in the structural parts listed')
